@@ -162,6 +162,9 @@ func getCursorWorld(spec CursorWorldSpec) (*cursorWorld, error) {
 type CursorFault struct {
 	Kind string `json:"kind"` // OpenFile Read Seek IterYield IterStart
 	N    int    `json:"n"`    // ordinal among calls of that kind within the query
+	// CtxWrap: the store's error wraps context.DeadlineExceeded (a store-side
+	// timeout of its own: the query's context is alive)
+	CtxWrap bool `json:"ctxwrap,omitempty"`
 }
 
 type CursorStep struct {
@@ -214,7 +217,7 @@ func genCursorCase(withFaults bool) *rapid.Generator[CursorCase] {
 		if withFaults && chance(t, "faults", 50) {
 			n := rapid.IntRange(1, 3).Draw(t, "nfaults")
 			for i := 0; i < n; i++ {
-				c.Faults = append(c.Faults, CursorFault{Kind: pick(t, "fkind", []string{"Read", "OpenFile", "Read", "Seek", "IterYield", "IterStart", "Corrupt", "Corrupt"}), N: rapid.IntRange(0, 6).Draw(t, "fn")})
+				c.Faults = append(c.Faults, CursorFault{Kind: pick(t, "fkind", []string{"Read", "OpenFile", "Read", "Seek", "IterYield", "IterStart", "Corrupt", "Corrupt"}), N: rapid.IntRange(0, 6).Draw(t, "fn"), CtxWrap: chance(t, "ctxwrap", 30)})
 			}
 		}
 		if chance(t, "itergate", 20) {
@@ -427,6 +430,9 @@ func runCursorCase(c CursorCase) (*CursorObs, *Trace, *bs.BloomSearchEngine, *Vi
 					o.FiredAfterTermination = append(o.FiredAfterTermination, name)
 				}
 				fmu.Unlock()
+				if f.CtxWrap {
+					return fmt.Errorf("%s: %w: store-side timeout: %w", name, errInjected, context.DeadlineExceeded)
+				}
 				return fmt.Errorf("%s: %w", name, errInjected)
 			}
 		}
